@@ -192,6 +192,9 @@ pub enum Op {
   Finalize(u32),
   Share,
   Spy(u32),
+  /// harness-only: a transparent stage that swallows unsubscription (a source that cannot be
+  /// cancelled): everything upstream keeps pushing after unsubscribe()
+  Deaf,
   BoxIt,
 }
 
@@ -264,6 +267,7 @@ impl Op {
       Op::Finalize(_) => "finalize",
       Op::Share => "share",
       Op::Spy(_) => "spy",
+      Op::Deaf => "deaf",
       Op::BoxIt => "box_it",
     }
   }
@@ -379,7 +383,7 @@ impl Chain {
       c.collect_names(out)
     }
     for op in &self.ops {
-      if !matches!(op, Op::Spy(_) | Op::BoxIt) {
+      if !matches!(op, Op::Spy(_) | Op::BoxIt | Op::Deaf) {
         out.push(op.name());
       }
       for c in op.sub_chains() {
